@@ -20,7 +20,9 @@ Inductive top :=
 | TCancelIf (n : name)                  (* CancelJobIfExists: CancelJob with its result dropped *)
 | TExists (n : name)                    (* JobExists *)
 | TList                                 (* ListJobs *)
-| TCancelAll.                           (* CancelJobs with a prefix that every name has *)
+| TCancelAll                            (* CancelJobs with a prefix that every name has *)
+| TCancelSet (l : list name).           (* CancelJobs with a prefix that exactly the names of [l] have (the harness
+                                           computes [l] from the prefix and the names it uses: what "prefix" means) *)
 
 Inductive tout :=
 | TCode (c : code)
@@ -91,6 +93,11 @@ Definition tb_step (s : tabst) (o : top) : tabst * tout :=
   | TCancelAll =>
       (* CancelJobs collects the matching names, then CancelJobIfExists on each: every entry goes *)
       ({| tb_table := fold_left (fun t n => fst (t_cancel t n)) (t_list (tb_table s)) (tb_table s);
+          tb_per := tb_per s; tb_next := tb_next s; tb_runs := tb_runs s |}, TCode Nil)
+  | TCancelSet l =>
+      (* the listed names that have the prefix are collected, then CancelJobIfExists on each *)
+      ({| tb_table := fold_left (fun t n => fst (t_cancel t n))
+                                (filter (fun n => existsb (N.eqb n) l) (t_list (tb_table s))) (tb_table s);
           tb_per := tb_per s; tb_next := tb_next s; tb_runs := tb_runs s |}, TCode Nil)
   end.
 
